@@ -972,6 +972,10 @@ func (db *TempPool) cleanRemovedNewOperations() (int, error) {
 				batch.Delete(key)
 				batch.Delete(leveldbNewOperationKey(valuehash.NewBytes(b)))
 
+				if db.opcache != nil {
+					_ = db.opcache.Remove(valuehash.NewBytes(b).String())
+				}
+
 				removed++
 
 				return false, nil
